@@ -21,6 +21,7 @@ var Registry = map[string]Spec{
 	"C18": {Want: build.Want{StockCLIs: true}, Run: RunC18},
 	"C19": {Want: build.Want{WorkerInst: true}, Run: RunC19},
 	"C02": {Want: build.Want{WorkerInst: true}, Run: RunC02},
+	"C03": {Want: build.Want{StockCLIs: true, InstCLIs: true, WorkerInst: true}, Run: RunC03},
 	"C08": {Want: build.Want{StockCLIs: true, InstCLIs: true}, Run: RunC08},
 	"C09": {Want: build.Want{WorkerInst: true, WorkerRace: true}, Run: RunC09},
 }
